@@ -22,7 +22,7 @@ func runC02(p *Program, r *Report) {
 	for _, m := range []struct {
 		r string
 		n int
-	}{{"C02.R1", 12}, {"C02.R2", 6}, {"C02.R3", 1}, {"C02.R4", 3}, {"C02.R5", 1}, {"C02.R6", 2}, {"C02.R7", 1}, {"C02.R12", 4}, {"C02.R13", 2}, {"C02.R14", 1}, {"C02.R15", 1}, {"C02.R16", 1}, {"C02.R17", 1}, {"C02.R18", 2}, {"C02.R19", 5}, {"C02.R20", 1}, {"C02.R21", 1}, {"C02.R22", 4}, {"C02.R23", 2}, {"C02.R24", 1}, {"C02.R25", 1}, {"C02.R26", 2}, {"C02.R27", 1}, {"C02.R28", 1}, {"C02.R29", 1}} {
+	}{{"C02.R1", 12}, {"C02.R2", 6}, {"C02.R3", 1}, {"C02.R4", 3}, {"C02.R5", 1}, {"C02.R6", 2}, {"C02.R7", 1}, {"C02.R12", 4}, {"C02.R13", 2}, {"C02.R14", 1}, {"C02.R15", 1}, {"C02.R16", 1}, {"C02.R17", 1}, {"C02.R18", 2}, {"C02.R19", 5}, {"C02.R20", 1}, {"C02.R21", 1}, {"C02.R22", 4}, {"C02.R23", 2}, {"C02.R24", 1}, {"C02.R25", 1}, {"C02.R26", 2}, {"C02.R27", 1}, {"C02.R28", 1}, {"C02.R29", 1}, {"C02.R30", 1}} {
 		r.Min(m.r, m.n)
 	}
 	pl, err := loadPolicy(p)
@@ -204,6 +204,7 @@ func runC02(p *Program, r *Report) {
 	checkCandidateListsNonEmpty(p, r, textAfterStartValidator(p), "C02.R27")
 	checkTextValidatorIgnoresValueWhenAmbiguous(p, r, "C02.R28")
 	checkMemoHitNamesTheCopy(p, r, "C02.R29")
+	checkSpecialNamesAreOneElement(p, r, "C02.R30")
 	checkSlashSeparatesAttributes(p, r, "C02.R24")
 	checkNodeDispatchPassThrough(p, r, "C02.R13")
 	checkConditionalNamesBodyKind(p, r, "C02.R14")
